@@ -28,7 +28,10 @@ def q(xs):
     return "{" + ", ".join('"%s"' % x for x in xs) + "}"
 
 
-def cfg_text(spec, pipes, rcvs, procs, exps, conns, maxsize, exts, maxfail, invs="", props=""):
+SIG_SHARED = "shared-receiver-inner-start-before-consumers-of-its-other-signals"
+
+
+def cfg_text(spec, pipes, rcvs, procs, exps, conns, maxsize, exts, maxfail, invs="", props="", receivers_last=False):
     t = """SPECIFICATION %s
 CONSTANTS
   PipeSeq <- %s
@@ -40,8 +43,9 @@ CONSTANTS
   MaxSize = %d
   ExtIds = %s
   MaxFail = %d
+  ReceiversLast = %s
 CHECK_DEADLOCK FALSE
-""" % (spec, pipes, q(rcvs), q(procs), q(exps), q(conns), maxsize, q(exts), maxfail)
+""" % (spec, pipes, q(rcvs), q(procs), q(exps), q(conns), maxsize, q(exts), maxfail, "TRUE" if receivers_last else "FALSE")
     if invs:
         t += "INVARIANTS %s\n" % invs
     if props:
@@ -143,7 +147,7 @@ def decorate(c, cfgs):
 def validate_batch(c, scripts, obs, batch, label, b0):
     """One batch of lifetimes through LifecycleTrace.  Returns (accepted count, [(index, line, event)] rejected).
     TLC stops explaining at the first rejected lifetime, so the rest of the batch is re-run without it."""
-    accepted, rejected = 0, []
+    accepted, rejected, early = 0, [], []
     rnd = 0
     while batch:
         rnd += 1
@@ -159,6 +163,11 @@ def validate_batch(c, scripts, obs, batch, label, b0):
                   timeout=1200, label="trace_%s_%d_%d" % (label, b0, rnd), count=False, heap="3g")
         if r.timed_out:
             raise vlib.Inconclusive("trace validation timed out")
+        # lines at which TLC found the inner object of a shared receiver started too early (reported, not rejected)
+        for ln in sorted({int(pr.replace(">>", "").split(",")[1]) for pr in r.out.splitlines() if pr.startswith('<<"SHARED_EARLY_AT"')}):
+            k = max(j for j in range(len(batch)) if starts[j] <= ln)
+            if (batch[k], ln - starts[k]) not in early:
+                early.append((batch[k], ln - starts[k]))
         if r.ok:
             accepted += len(batch)
             break
@@ -181,7 +190,7 @@ def validate_batch(c, scripts, obs, batch, label, b0):
         batch = batch[k + 1:]
         if len(rejected) >= 3:
             break
-    return accepted, rejected
+    return accepted, rejected, early
 
 
 def validate(c, scripts, obs, label):
@@ -192,8 +201,22 @@ def validate(c, scripts, obs, label):
     with ThreadPoolExecutor(max_workers=4) as ex:
         results = list(ex.map(lambda bb: validate_batch(c, scripts, obs, bb[0], label, bb[1]), batches))
     nrej = 0
-    for acc, rej in results:
+    nearly = 0
+    for acc, rej, early in results:
         c.traces_validated += acc
+        for i, at in early:
+            nearly += 1
+            if c.extra.get("shared_receiver_started_early_lifetimes", 0) + nearly > 3:
+                continue
+            tl = trace_lines(scripts[i], obs[i])
+            c.violation("a receiver shared between signals (sharedcomponent) started its inner object at event %d %s while a consumer of "
+                        "another of its signals had not been started; configuration %s shared %s"
+                        % (at, json.dumps(tl[at], sort_keys=True),
+                           json.dumps({"%s/%s" % (p["sig"], p["name"]): dict(r=p["r"], p=p["p"], e=p["e"]) for p in scripts[i]["pipes"]}, sort_keys=True),
+                           scripts[i]["shared"]),
+                        replay_obj=dict(script=scripts[i], trace=tl, at=at), signature=SIG_SHARED)
+    if nearly:
+        c.extra["shared_receiver_started_early_lifetimes"] = c.extra.get("shared_receiver_started_early_lifetimes", 0) + nearly
         for i, at, ev in rej:
             nrej += 1
             if nrej > 5:
@@ -259,11 +282,17 @@ def run(c):
     # 1. design check
     mcs = [("Pipes2", ["r1"], ["p1"], ["e1"], ["ca1"], 4, ["x1", "x2"], 1)] if qk else \
           [("Pipes2", ["r1"], ["p1"], ["e1"], ["ca1"], 6, ["x1", "x2"], 1),
-           ("Pipes2", ["r1"], ["p1"], ["e1"], ["ca1"], 5, ["x1", "x2"], 2),
-           ("Pipes3", ["r1"], ["p1"], ["e1"], ["ca1"], 6, ["x1"], 1)]
+           ("Pipes2", ["r1"], ["p1"], ["e1"], ["ca1"], 4, ["x1", "x2"], 2),
+           ("Pipes3", ["r1"], ["p1"], ["e1"], ["ca1"], 5, ["x1"], 1)]
     for k, u in enumerate(mcs):
+        # (a) StartAll as in the pinned tree: every clause except SharedStartOrder (known not to hold, see SIG_SHARED)
         c.tlc_must_pass("Lifecycle", "LifecycleMC", cfg_text=cfg_text("LSpec", *u, invs=INVS, props=PROPS), coverage=True,
-                        files=PGFILES, timeout=3000, label="design%d" % k)
+                        vacuous_ok=("AddDep",) if len(u[6]) < 2 else (), files=PGFILES, timeout=3000, label="design%d" % k)
+        # (b) the repaired StartAll (receivers last): every clause including SharedStartOrder
+        if k == 0 or not qk:
+            c.tlc_must_pass("Lifecycle", "LifecycleMC", cfg_text=cfg_text("LSpec", *u, invs=INVS, props=PROPS + " SharedStartOrder",
+                                                                          receivers_last=True), coverage=True,
+                            vacuous_ok=("AddDep",) if len(u[6]) < 2 else (), files=PGFILES, timeout=3000, label="design%d_fixed" % k)
 
     # 2. scripts: bounded-exhaustive from LifecycleGen
     gens = [("Pipes2", ["r1"], ["p1"], ["e1"], ["ca1"], 5, ["x1", "x2"], 1)] if qk else \
